@@ -89,9 +89,12 @@ let replay_instance (h : shist) (k : int) : unit =
   let cands : int list ref = ref [] in
   let relaxed = ref false in
   let note () = let v = int_of_z (capacity (calc !s)) in if not (List.mem v !cands) then cands := v :: !cands in
+  (* values seen in capacity events of the current instant that are checked when the instant is over *)
+  let deferred : int list ref = ref [] in
   let cap_ok w o =
     match w, o with
-    | ["ev"; "capacity"; v], SOEvCapacity v' -> ios v = int_of_z v' || ((!relaxed || h.gen = 1) && List.mem (ios v) !cands)
+    | ["ev"; "capacity"; v], SOEvCapacity v' ->
+        ios v = int_of_z v' || ((!relaxed || h.gen = 1) && (deferred := ios v :: !deferred; true))
     | _ -> line_is w o in
   let do_step t l trigger =
     match sstep c !s l with
@@ -183,7 +186,7 @@ let replay_instance (h : shist) (k : int) : unit =
         else
           try
             advance t;
-            cands := []; note ();
+            cands := []; deferred := []; note ();
             if early then
               List.iter (fun ln -> match ln.w with
                   | ["ev"; "released"; p] ->
@@ -191,6 +194,15 @@ let replay_instance (h : shist) (k : int) : unit =
                       if os <> [] then owed := !owed @ [os]
                   | _ -> ()) rel;
             List.iter (fun ln -> if not !dead then process ln) g;
+            (* the steps of the instant may have been interleaved otherwise than logged (the table is set just before
+               the allocated event, cleared some time before the released event): any count between "all clears
+               first" and "all sets first" can have been read *)
+            let f = int_of_z !s.s_factor in
+            let nrel = List.length rel and nall = List.length (List.filter (fun ln -> match ln.w with ["ev"; "allocated"; _] -> true | _ -> false) g) in
+            let lo = List.fold_left min max_int !cands - f * nrel and hi = List.fold_left max min_int !cands + f * nall in
+            List.iter (fun v -> if v < lo || v > hi then
+                          Stdlib.raise (Reject (t, "value:capacity-event", Printf.sprintf "a capacity event of this instant carries %d, outside what any interleaving of the instant can read (%d..%d)"
+                                                      v lo hi))) !deferred;
             let key (s1, o1, d1) = ({ s1 with s_issued = [] }, o1, d1) in
             let me = (!s, !owed, !dead) in
             if !out = [] || not (List.exists (fun a -> Stdlib.compare (key a) (key me) = 0) !out) then out := me :: !out
@@ -215,7 +227,7 @@ let replay_file path =
          let busy = List.length (List.filter (fun ln -> ln.t = t && (match ln.w with
              | ["ev"; "released"; _] | ["lm"; "lease"; _] | "act" :: _ -> true | _ -> false)) h.lines) in
          if busy >= 2 && kind <> "sample:maxcapacity"
-         then Printf.printf "FUEL %s ambiguous-instant t=%d\n%!" path t
+         then Printf.printf "FUEL %s ambiguous-instant t=%d (%s: %s)\n%!" path t kind detail
          else Printf.printf "REJECT %s seg=0 t=%d kind=%s :: %s\n%!" path t kind detail)
     end
   with Failure m -> Printf.printf "ERROR %s %s\n%!" path m
